@@ -248,6 +248,8 @@ def precedence_checks(chk, rng, n=400):
     reqs, cases = [], []
     for _ in range(n):
         _l, r = mg.rand_pair(rng)
+        if r["k"] == "null":
+            continue        # an empty right-hand document is never looked up (merge_with returns at once)
         cfg = mg.rand_policy(rng, r, with_rules=True)
         addrs = mg.node_addrs(r)
         addr, _node = rng.choice(addrs)
@@ -306,7 +308,7 @@ def run(chk: core.Check):
     else:
         table_checks(chk)
         precedence_checks(chk, rng, 400 if tier == "quick" else 4000)
-        bound = 2 if tier == "quick" else 3
+        bound = int(os.environ.get("YPV_EXH_BOUND") or (2 if tier == "quick" else 3))   # override: developer runs only
         docs = mg.docs_up_to(bound)
         pairs = [(l, r) for l in docs for r in docs]
         rng.shuffle(pairs)
@@ -314,7 +316,7 @@ def run(chk: core.Check):
                  [(l, r, cfg, "ini") for (l, r, cfg) in CORPUS])]
         per = 40 if tier == "quick" else 150
         jobs += [("EXH", pairs[i:i + per]) for i in range(0, len(pairs), per)]
-        nrand = 300000 if tier == "quick" else 3000000
+        nrand = int(os.environ.get("YPV_NRAND") or (300000 if tier == "quick" else 3000000))
         per_job = 2500
         jobs += [("RAND", chk.seed * 100003 + i, per_job) for i in range(nrand // per_job)]
         chk.exhaustive = True
